@@ -61,7 +61,9 @@ def main():
     rcs = [p.wait() for p in procs]
     raws = glob.glob(f"{root}/prof/*.profraw")
     subprocess.check_call([f"{BIN}/llvm-profdata", "merge", "-sparse", "-o", f"{root}/m.profdata"] + raws)
-    lcov = subprocess.run([f"{BIN}/llvm-cov", "export", "-format=lcov", exe, f"-instr-profile={root}/m.profdata"] + files, stdout=subprocess.PIPE, stderr=subprocess.DEVNULL).stdout.decode()
+    lcov = subprocess.run([f"{BIN}/llvm-cov", "export", "-format=lcov", exe, f"-instr-profile={root}/m.profdata", "-ignore-filename-regex=/root/.cargo/|/rustc/|/verif/"], stdout=subprocess.PIPE, stderr=subprocess.DEVNULL).stdout.decode()
+    os.makedirs("/tmp/v-cov-lcov", exist_ok=True)
+    open(f"/tmp/v-cov-lcov/{pid}.lcov", "w").write(lcov)
     os.makedirs(f"{VERIF}/coverage", exist_ok=True)
     out = [f"# {pid}: lines of the anchored files executed by the {tier} tier (seed {seed}, {n} workers, dev profile, worker exits {sorted(set(rcs))})", ""]
     cur, da = None, {}
@@ -96,8 +98,61 @@ def main():
         shutil.rmtree(root, ignore_errors=True)
 
 
+def parse(path):
+    per, cur = {}, None
+    for line in open(path):
+        line = line.rstrip("\n")
+        if line.startswith("SF:"):
+            cur = line[3:]; per.setdefault(cur, {})
+        elif line.startswith("DA:") and cur:
+            ln, cnt = line[3:].split(",")[:2]
+            per[cur][int(ln)] = per[cur].get(int(ln), 0) + int(cnt)
+    return per
+
+
+def union():
+    """coverage/UNION.txt: lines of the anchored files that no measured check executes."""
+    props = [json.loads(l) for l in open(f"{VERIF}/properties.jsonl")]
+    measured = sorted(os.path.basename(p)[:-5] for p in glob.glob("/tmp/v-cov-lcov/*.lcov"))
+    tot = {}
+    who = {}
+    for m in measured:
+        for f, d in parse(f"/tmp/v-cov-lcov/{m}.lcov").items():
+            t = tot.setdefault(f, {})
+            for l, c in d.items():
+                t[l] = t.get(l, 0) + c
+                if c:
+                    who.setdefault(f, set()).add(m)
+    anchored = {}
+    for p in props:
+        for f in p["anchors"]["files"]:
+            q = os.path.join("/repo", f)
+            for g in (sorted(glob.glob(q + "/**/*.rs", recursive=True)) if os.path.isdir(q) else [q]):
+                anchored.setdefault(g, []).append(p["id"])
+    out = [f"# Lines of the anchored files executed by no measured quick tier (measured: {' '.join(measured)}; the no-libc probe checks C04-C07 and the probe parts of C03/C08/C13 cannot be measured, the lock sources of C01/C02 run as a generated copy)", ""]
+    for f in sorted(anchored):
+        d = tot.get(f)
+        if not d:
+            out.append(f"## {f[6:]} (anchors {','.join(anchored[f])}): in no measured binary\n")
+            continue
+        missed = sorted(l for l, c in d.items() if c == 0)
+        out.append(f"## {f[6:]} (anchors {','.join(anchored[f])}; executed by {','.join(sorted(who.get(f, [])))}): {len(d) - len(missed)}/{len(d)}")
+        src = open(f, errors="replace").read().splitlines()
+        prev = None
+        for l in missed:
+            if prev is not None and l != prev + 1:
+                out.append("   ...")
+            out.append(f"   {l:5d}: {src[l - 1] if l - 1 < len(src) else ''}")
+            prev = l
+        out.append("")
+    open(f"{VERIF}/coverage/UNION.txt", "w").write("\n".join(out) + "\n")
+    print(f"-> coverage/UNION.txt ({len(measured)} measured)")
+
+
 if __name__ == "__main__":
-    if sys.argv[1] == "--clean":
+    if sys.argv[1] == "--union":
+        union()
+    elif sys.argv[1] == "--clean":
         shutil.rmtree("/tmp/v-cov-target", ignore_errors=True)
     else:
         main()
